@@ -250,6 +250,7 @@ pub fn spaces(tier: Tier) -> Vec<FSpace> {
     }
     v.push(from_text(seqspace::lexeme_variants()));
     v.push(from_text(seqspace::keyword_table()));
+    v.push(from_text(seqspace::unicode_words()));
     // (c) nasty fillers in every gap
     for s in 0..6 {
         v.push(injection_family(s, false));
